@@ -268,7 +268,26 @@ func init() {
 		}
 		spec := metricSpec("Metric.eval (vector aggregation) == Engine.Eval", "c11", func(r *rand.Rand) MetricCase {
 			t := MetricCase{Recs: genMRecs(r, 2+r.Intn(14)), Repeat: 3}
-			switch r.Intn(5) {
+			switch r.Intn(6) {
+			case 5:
+				// a list that repeats a label, over an inner grouping with as many labels as the list is long
+				ls := distinctStrings(r, mLabels, 2)
+				var in *MExpr
+				if r.Intn(2) == 0 {
+					in = &MExpr{Kind: "vagg", Op: pick(r, []string{"sum", "count"}), Group: &MGroup{Labels: ls}, A: &MExpr{Kind: "range", Op: "count_over_time", RangeS: 20}}
+				} else {
+					in = &MExpr{Kind: "range", Op: pick(r, []string{"max_over_time", "min_over_time"}), RangeS: 20, Unwrap: &MUnwrap{Label: "v"}, Group: &MGroup{Labels: ls}}
+				}
+				op := pick(r, []string{"sum", "count", "max", "topk"})
+				if op == "topk" {
+					// distinct values only (a tie is broken by the label-set key, which the model does not compute)
+					in = &MExpr{Kind: "range", Op: "max_over_time", RangeS: 20, Unwrap: &MUnwrap{Label: "v"}, Group: &MGroup{Labels: ls}}
+				}
+				t.E = MExpr{Kind: "vagg", Op: op, Group: &MGroup{Labels: []string{ls[0], ls[0]}}, GroupBefore: r.Intn(2) == 0, A: in}
+				if op == "topk" {
+					t.E.Param = "1"
+					c11DistinctValues(&t)
+				}
 			case 0: // topk / bottomk over distinct values
 				k := 1 + r.Intn(4)
 				t.E = MExpr{Kind: "vagg", Op: pick(r, []string{"topk", "bottomk"}), Param: fmt.Sprint(k), Group: genMGroup(r), A: &MExpr{Kind: "range", Op: "sum_over_time", RangeS: 20, Unwrap: &MUnwrap{Label: "v"}}}
@@ -359,6 +378,23 @@ func init() {
 				if r.Intn(2) == 0 { // same operand on both sides: full overlap
 					cp := *e.A
 					e.B = &cp
+				}
+			}
+			if r.Intn(8) == 0 {
+				// same label sets, different values, different sizes: one side counts all lines per series, the other
+				// only the lines containing a needle (fewer series, smaller counts); either side may be the larger one.
+				// What a set operation or an arithmetic operation keeps FROM WHICH SIDE shows only here
+				// (summed by one label: the line itself is a label of every un-aggregated series, which would make the
+				// two counts equal wherever the label sets match)
+				by := &MGroup{Labels: []string{pick(r, mLabels)}}
+				all := &MExpr{Kind: "vagg", Op: "sum", Group: by, A: &MExpr{Kind: "range", Op: "count_over_time", RangeS: 20}}
+				some := &MExpr{Kind: "vagg", Op: "sum", Group: by, A: &MExpr{Kind: "range", Op: "count_over_time", RangeS: 20, Stages: []LStage{{Kind: "lf", Op: "eq", Value: pick(r, []string{"err", "x", "warn"})}}}}
+				e = &MExpr{Kind: "bin", Op: pick(r, []string{"and", "and", "or", "unless", "sub", "div", "gt"}), A: all, B: some}
+				if r.Intn(2) == 0 {
+					e.A, e.B = some, all
+				}
+				for i := range t.Recs {
+					t.Recs[i].Body = pick(r, []string{"err x", "info", "warn x", "plain", "err"})
 				}
 			}
 			if binPrec[e.Op] == 3 && r.Intn(3) == 0 {
